@@ -1,6 +1,7 @@
 package gen
 
 import (
+	"go/token"
 	"sort"
 
 	"github.com/dave/jennifer/jen"
@@ -52,14 +53,19 @@ func (g *Generator) generateMethodFunction(obj *tlparser.Method) jen.Code {
 		resp = jen.Index().Add(resp)
 	}
 
-	// еще одно злоебучее исключение. проблема в том, что bool это вот как бы и объект, да вот как бы и нет
-	// трабла только в том, что нельзя просто так взять, и получить bool из MakeRequest. так что
-	// возвращаем tl.Bool
-	if obj.Response.Type == "Bool" {
-		resp = jen.Op("*").Qual(tlPackagePath, "PseudoBool")
-	}
+	// value, which is returning with an error: nil can't be used for all types of response
+	zero := g.zeroValueOfResponse(obj)
 
 	responses := []jen.Code{resp, jen.Error()}
+
+	request := jen.Id("c").Dot("MakeRequest").Call(g.generateMethodArgumentForMakingRequest(obj))
+	if obj.Response.IsList {
+		// decoder can't guess type of items of vector by itself, so we are giving a hint
+		request = jen.Id("c").Dot("MakeRequestWithHintToDecoder").Call(
+			g.generateMethodArgumentForMakingRequest(obj),
+			jen.Qual("reflect", "TypeOf").Call(jen.Add(resp).Values()),
+		)
+	}
 
 	//*	data, err := c.MakeRequest(params)
 	//*	if err != nil {
@@ -73,9 +79,9 @@ func (g *Generator) generateMethodFunction(obj *tlparser.Method) jen.Code {
 	//*
 	//*	return resp, nil
 	method := jen.Func().Params(jen.Id("c").Op("*").Id("Client")).Id(goify(obj.Name, true)).Params(g.generateArgumentsForMethod(obj)...).Params(responses...).Block(
-		jen.List(jen.Id("responseData"), jen.Id("err")).Op(":=").Id("c").Dot("MakeRequest").Call(g.generateMethodArgumentForMakingRequest(obj)),
+		jen.List(jen.Id("responseData"), jen.Id("err")).Op(":=").Add(request),
 		jen.If(jen.Err().Op("!=").Nil()).Block(
-			jen.Return(jen.Nil(), jen.Qual(errorsPackagePath, "Wrap").Call(jen.Err(), jen.Lit("sending "+goify(obj.Name, true)))),
+			jen.Return(zero, jen.Qual(errorsPackagePath, "Wrap").Call(jen.Err(), jen.Lit("sending "+goify(obj.Name, true)))),
 		),
 		jen.Line(),
 		jen.List(jen.Id("resp"), jen.Id("ok")).Op(":=").Id("responseData").Assert(resp),
@@ -99,7 +105,7 @@ func (g *Generator) generateArgumentsForMethod(obj *tlparser.Method) []jen.Code 
 	items := make([]jen.Code, 0)
 
 	for i, p := range obj.Parameters {
-		item := jen.Id(goify(p.Name, false))
+		item := jen.Id(argumentName(p.Name))
 		if i == len(obj.Parameters)-1 || p.Type != obj.Parameters[i+1].Type || p.IsVector != obj.Parameters[i+1].IsVector {
 			if p.Type == "bitflags" {
 				continue // ну а зачем?
@@ -128,8 +134,49 @@ func (g *Generator) generateMethodArgumentForMakingRequest(obj *tlparser.Method)
 			continue // ну а зачем?
 		}
 
-		dict[jen.Id(goify(p.Name, true))] = jen.Id(goify(p.Name, false))
+		dict[jen.Id(goify(p.Name, true))] = jen.Id(argumentName(p.Name))
 	}
 
 	return jen.Op("&").Id(goify(obj.Name, true) + "Params").Values(dict)
+}
+
+// zeroValueOfResponse returns value of response type, which method returns with an error
+func (g *Generator) zeroValueOfResponse(obj *tlparser.Method) jen.Code {
+	if obj.Response.IsList {
+		return jen.Nil()
+	}
+
+	switch obj.Response.Type {
+	case "Bool":
+		return jen.False()
+	case "int", "long", "double":
+		return jen.Lit(0)
+	case "string":
+		return jen.Lit("")
+	}
+	if _, isEnum := g.schema.Enums[obj.Response.Type]; isEnum {
+		return jen.Lit(0)
+	}
+
+	return jen.Nil()
+}
+
+// argumentName returns name of method argument for parameter of schema: it can't be a keyword of go, or a
+// name which method uses by itself
+func argumentName(name string) string {
+	res := goify(name, false)
+	switch res {
+	case "c", "err", "ok", "resp", "responseData":
+		return res + "_"
+	case "errors":
+		// name of package, which method uses
+		return "errs"
+	case "reflect":
+		return "reflect_"
+	}
+	if token.IsKeyword(res) {
+		return res + "_"
+	}
+
+	return res
 }
